@@ -14,6 +14,20 @@ PROPS = {
     },
 }
 
+PROPS['C08'] = {
+    'level': 'proof',
+    'units': ['C08/shift_and', 'C08/kmp', 'C08/horspool', 'C08/bndm'],
+    'kani': [],
+    'oracle': 'C08',
+    'decided': ['ShiftAnd, KMP, Horspool, BNDM: every call of Matches::next returns the next occurrence at or after the frontier, skips none, and None only when no occurrence remains (hence increasing, duplicate-free, complete), for every pattern 1..=64 (bit-parallel) / any length and every text',
+                'mask/shift/lps tables built by masks, Horspool::new, lps equal their definitions'],
+    'undecided': ['BOM (factor-oracle completeness theorem out of reach; no contract decides it)',
+                  'constructors/find_all wrappers of ShiftAnd, KMP, BNDM (struct literal plumbing) are not yet under contract'],
+    'trusted': ['Enumerate<slice::Iter<u8>>::next model (assume_specification)', 'iterator parameters instantiated at byte slices (rules R6*, INST)'],
+    'level_text': 'Verus proves the iterator contract (next occurrence, none skipped, termination) on the real next() of four of the five matchers and the table-construction functions, for all patterns and texts; BOM is not decided.',
+    'level_note': 'Trusted: Verus/Z3, Enumerate::next model, instantiation of the generic iterator parameters at &[u8]; BOM undecided; see evidence assumptions.',
+}
+
 NOT_APPLICABLE = {
     'C10': 'Myers traceback lives in impl_myers! macro bodies and generic handler traits over iterator adapter chains (rev().chain(cycle())): outside Verus extraction (macros, adapters) and outside Kani\'s tractable loop-free fragment; no contract within reach decides any clause (DESIGN.md §4 C10).',
     'C11': 'FASTA/FASTQ parsing is String-based (read_line, trim_end, splitn(char::is_whitespace), write!): Verus has no str byte reasoning or specs for these, Kani explodes on String/UTF-8/fmt (DESIGN.md §4 C11).',
